@@ -11,6 +11,12 @@ FLT_PARTS = ["f32", "f64"]
 FLOAT_COVER = {"none@gcc11", "SSE2@gcc11", "SSE4_1@gcc11", "AVX2+FMA@gcc11", "F@gcc11", "VL+BW+DQ@gcc11", "FULL@clang11"}
 
 
+def exh16_flags(cfg, tier, part=None):
+    """thorough tier: the exhaustive 2^32-pair passes of the 16-bit family run only for the arm-cover configurations"""
+    cover = set(C.Config(x).name for x in C.ARM_COVER) | {"FULL@clang11"}
+    return ["-DVX_EXH16=1"] if (tier == "thorough" and part == "16" and cfg.name in cover) else []
+
+
 def exh_quick_flags(cfg, tier):
     """quick tier: the exhaustive 2^32 float passes run only for the configurations that select distinct float arms"""
     return ["-DVX_EXH_QUICK=1"] if (tier == "quick" and cfg.name in FLOAT_COVER) else []
@@ -33,13 +39,13 @@ def convert_pairs_flags(cfg, tier, part=None):
 
 
 TUS = {
-    "t_arith": {"sources": ["t_arith.cpp"], "parts": INT_PARTS},
-    "t_cmp": {"sources": ["t_cmp.cpp"], "parts": INT_PARTS + FLT_PARTS},
-    "t_bit": {"sources": ["t_bit.cpp"], "parts": INT_PARTS},
-    "t_bitwise": {"sources": ["t_bitwise.cpp"], "parts": INT_PARTS},
+    "t_arith": {"sources": ["t_arith.cpp"], "parts": INT_PARTS, "cfg_flags": exh16_flags, "shards": {"thorough": {"16": 8}}},
+    "t_cmp": {"sources": ["t_cmp.cpp"], "parts": INT_PARTS + FLT_PARTS, "cfg_flags": exh16_flags, "shards": {"thorough": {"16": 8}}},
+    "t_bit": {"sources": ["t_bit.cpp"], "parts": INT_PARTS, "shards": {"thorough": {"32": 8}}},
+    "t_bitwise": {"sources": ["t_bitwise.cpp"], "parts": INT_PARTS, "cfg_flags": exh16_flags, "shards": {"thorough": {"16": 6}}},
     "t_shiftc": {"sources": ["t_shiftc.cpp"], "parts": INT_PARTS},
-    "t_div": {"sources": ["t_div.cpp"], "parts": INT_PARTS},
-    "t_farith": {"sources": ["t_farith.cpp"], "parts": FLT_PARTS},
+    "t_div": {"sources": ["t_div.cpp"], "parts": INT_PARTS, "cfg_flags": exh16_flags, "shards": {"thorough": {"16": 8}}},
+    "t_farith": {"sources": ["t_farith.cpp"], "parts": FLT_PARTS, "shards": {"thorough": {"f32": 8}}},
     "t_fround": {"sources": ["t_fround.cpp"], "parts": FLT_PARTS, "cfg_flags": exh_quick_flags, "shards": {"quick": {"f32": 6}, "thorough": {"f32": 12, "f64": 2}}},
     "t_fmanip": {"sources": ["t_fmanip.cpp"], "parts": FLT_PARTS, "shards": {"thorough": {"f32": 5}}},
     "t_fclass": {"sources": ["t_fclass.cpp"], "parts": FLT_PARTS, "cfg_flags": exh_quick_flags, "shards": {"quick": {"f32": 6}, "thorough": {"f32": 6}}},
@@ -48,7 +54,7 @@ TUS = {
     "t_memfp": {"sources": ["t_mem.cpp"], "parts": INT_PARTS + FLT_PARTS, "flags": ["-DVX_FOOTPRINT=1"]},
     "t_denom": {"sources": ["t_denom.cpp"], "parts": INT_PARTS},
     "t_denomv": {"sources": ["t_denom.cpp"], "parts": INT_PARTS, "flags": ["-DVX_DENOM_VECTOR=1"]},
-    "t_scalar": {"sources": ["t_scalar.cpp"], "parts": INT_PARTS + FLT_PARTS},
+    "t_scalar": {"sources": ["t_scalar.cpp"], "parts": INT_PARTS + FLT_PARTS, "cfg_flags": exh16_flags, "shards": {"thorough": {"16": 6, "32": 8, "f32": 4}}},
     "t_convert": {"sources": ["t_convert.cpp"], "parts": INT_PARTS + FLT_PARTS, "cfg_flags": convert_pairs_flags},
     "t_alloc": {"sources": ["t_alloc.cpp"], "c_sources": ["vx_malloc.c"], "parts": [None],
                 "flags": ["-fno-builtin-malloc", "-fno-builtin-free", "-fno-builtin-calloc", "-fno-builtin-realloc", "-fno-builtin-aligned_alloc", "-fno-builtin-posix_memalign", "-fno-builtin-memalign"]},
@@ -59,7 +65,7 @@ TUS = {
     "t_prefetch128": {"sources": ["t_prefetch.cpp"], "parts": [None], "flags": ["-DAVEL_L1_CACHE_LINE_SIZE=128", "-DAVEL_L2_CACHE_LINE_SIZE=128", "-DAVEL_L3_CACHE_LINE_SIZE=128"]},
     "t_types": {"sources": ["t_types.cpp"], "parts": [None], "flags": ["-fsyntax-only"], "norun": True},
     "t_api": {"sources": ["t_api.cpp"], "parts": INT_PARTS + FLT_PARTS, "flags": ["-O0", "-Wl,--warn-unresolved-symbols"], "link_check": True},
-    "t_select": {"sources": ["t_select.cpp"], "parts": INT_PARTS + FLT_PARTS},
+    "t_select": {"sources": ["t_select.cpp"], "parts": INT_PARTS + FLT_PARTS, "cfg_flags": exh16_flags, "shards": {"thorough": {"16": 6, "8": 2}}},
 }
 
 def shards_for(tu, tier, part):
